@@ -29,7 +29,7 @@ template <class M> bool map_eq(const M& a, const M& b) { if (a.size() != b.size(
 
 template <class A, class M> void run(vf::Ctx& c, int archId, const char* tname) {
 	GenCtx g = GenCtx::forArch(archId); g.maxLen = 5;
-	Cfg cfg; cfg.stream = c.src.coin(); cfg.streamKind = cfg.stream ? static_cast<int>(c.src.draw(2)) : 0; cfg.chunk = 1 + c.src.draw(20);
+	Cfg cfg; cfg.stream = c.src.coin(); cfg.streamKind = cfg.stream ? gen_stream_kind(c.src, archId == MSGPACK) : 0; cfg.chunk = 1 + c.src.draw(20);
 	M doc = gen<M>(c.src, g); GenCtx gp = g; gp.noEmptyContainers = false; M prior = gen<M>(c.src, gp);
 	// make the key sets overlap: copy some keys of the document into the prior target (with other values) and vice versa
 	for (auto& kv : doc) if (c.src.chance(1, 2)) prior[kv.first] = gen<typename M::mapped_type>(c.src, g);
